@@ -220,6 +220,57 @@ def py_counts(lines):
     return [int(w) for w in py_words(lines[3])]
 
 
+def ins_sections(ins):
+    """[(marker text or None, [observation names read after it])] of an instruction file."""
+    secs = []
+    for l in ins[1:]:
+        if l.startswith('@') and l.endswith('@') and len(l) >= 2:
+            secs.append((l[1:-1], []))
+            continue
+        m = INS_RE.match(l)
+        if m:
+            if not secs:
+                secs.append((None, []))
+            secs[-1][1].append(m.group(2))
+    return secs
+
+
+def ins_shape(ins):
+    return '; '.join('%d value(s) after the marker %r' % (len(names), mark) for mark, names in ins_sections(ins)) \
+        or 'no value at all'
+
+
+SIM_HEAD = {'rise': '# Rise curve simulation vector', 'recession': '# Recession curve simulation vector'}
+
+
+def tagged_output(n_rise, n_rec):
+    """A simulation output (the two headers that `simulate --observations` prints, one `- value`
+    line per level) in which every value tells which vector and which position it stands at."""
+    lines, where = [SIM_HEAD['rise']], {}
+    for i in range(n_rise):
+        where['1%06d.0' % i] = ('rise', i)
+        lines.append('- 1%06d.0' % i)
+    if n_rec is not None:
+        lines.append(SIM_HEAD['recession'])
+        for j in range(n_rec):
+            where['2%06d.0' % j] = ('recession', j)
+            lines.append('- 2%06d.0' % j)
+    return lines, where
+
+
+def guarded(out, case, what, fn, *args):
+    """Run one stage of the oracle; a file that its reader cannot take (malformed, misaligned)
+    is a finding about the files, reported with the case, not a crash of the check."""
+    try:
+        return fn(*args)
+    except Exception as e:  # pylint: disable=broad-except
+        out.count('stage-failed:' + what.split(':')[0])
+        out.violation('oracle', 'the files written by `spowtd pestfiles` / the output of `spowtd simulate` could not '
+                      'be taken through the stage "%s" (%s: %s): a file is not what its PEST reader expects'
+                      % (what, type(e).__name__, str(e)[:200]), case=case)
+        return None
+
+
 # ------------------------------------------------------------------ parameter files
 
 def num_text(rng, x):
@@ -367,14 +418,37 @@ class DS:
         self.rec_vals = [float(v) / (3600 * 24) for _, v in reversed(self.rec_rows)]
 
 
-def gen_dataset(rng, tag, out):
+def relation(ds):
+    """How the number of levels of the rise curve compares with that of the recession curve
+    (the two shipped field samples are both rise<recession)."""
+    a, b = len(ds.rise_rows), len(ds.rec_rows)
+    return 'rise<recession' if a < b else 'rise=recession' if a == b else 'rise>recession'
+
+
+# shape of the saw-tooth that mostly gives the wanted relation (gen_pest.FALL_FRACTIONS)
+TARGETS = [None, 'rise>recession', 'rise<recession', 'rise=recession']
+SHAPE_FOR = {None: None, 'rise>recession': 'shallow', 'rise<recession': 'deep', 'rise=recession': None}
+
+
+def gen_dataset(rng, tag, out, want=None):
+    """A dataset that carries the whole workflow; `want` = the relation between the numbers of
+    rise and recession levels to aim at (measured on the tables the real commands wrote;
+    candidates of another relation are passed over, the first usable one is the fallback)."""
+    fallback = None
     for _ in range(30):
-        rec = GP.gen_curves_record(rng, size=rng.choice(['small', 'small', 'medium']))
+        rec = GP.gen_curves_record(rng, size=rng.choice(['small', 'small', 'medium']), shape=SHAPE_FOR[want])
         rec['et'] = [rng.choice([0.125, 0.0, 0.25, 0.0625]) for _ in range(5)]
         ds = DS(rec, tag)
         if ds.error is None and len(ds.rise_rows) >= 2 and len(ds.rec_rows) >= 2:
-            return ds
+            if want is None or relation(ds) == want:
+                return ds
+            out.count('dataset-other-relation')
+            fallback = fallback or rec
+            continue
         out.count('dataset-rejected')
+    if fallback is not None:
+        out.count('dataset-relation-target-missed')
+        return DS(fallback, tag)
     raise RuntimeError('no dataset carries the workflow')
 
 
@@ -448,16 +522,22 @@ def check_pair(ds, partext, out, coq, case, sane):
     consistent = sy_t == tr_t
     if consistent:
         out.nontriv(('pair', ds.tag, partext))
-    oracle_files(ds, par, lines, out, coq, case, consistent)
-    oracle_template_roundtrip(par, lines, out, case, consistent)
+    guarded(out, case, 'files: counts, names, observation values and order of the control files',
+            oracle_files, ds, par, lines, out, coq, case, consistent)
+    guarded(out, case, 'template: fill with the original values and load as YAML',
+            oracle_template_roundtrip, par, lines, out, case, consistent)
     if sane:
-        oracle_end_to_end(ds, parfile, par, lines, out, coq, case)
+        guarded(out, case, 'end-to-end: simulate --observations read through the instruction files',
+                oracle_end_to_end, ds, parfile, par, lines, out, coq, case)
 
 
 def oracle_files(ds, par, lines, out, coq, case, consistent):
     """Counts, names, observation values and order — on the implementation's files."""
     for which in ('rise', 'curves'):
         pst, tpl, ins = lines.get((which, 'pst')), lines.get((which, 'tpl')), lines.get((which, 'ins'))
+        if ins is not None:
+            guarded(out, case, 'alignment: %s instruction file over a position-tagged simulation output' % which,
+                    oracle_alignment, ds, which, ins, out, case)
         if pst is None or tpl is None or ins is None:
             continue
         counts = py_counts(pst)
@@ -509,6 +589,58 @@ def oracle_files(ds, par, lines, out, coq, case, consistent):
                       'of levels of the master curves (%d, %d): declared NOBS and instruction lines would '
                       'not match the observation lines' % (ds.n_rise_distinct, ds.n_rec_distinct,
                                                            len(ds.rise_rows), len(ds.rec_rows)), case=case)
+
+
+def oracle_alignment(ds, which, ins, out, case):
+    """The k-th observation of the control file is the measured value at the k-th level of the
+    rise curve (ascending), then of the recession curve (descending); the k-th value the
+    instruction file extracts must stand at that very position of the simulation output.
+    Decided by running the instruction file over an output whose values are position tags."""
+    n_rise = len(ds.rise_rows)
+    n_rec = len(ds.rec_rows) if which == 'curves' else None
+    lines, where = tagged_output(n_rise, n_rec)
+    want = [('rise', i) for i in range(n_rise)] + [('recession', j) for j in range(n_rec or 0)]
+    told = ('the control file lists %d dynamic-storage observations (rise curve) followed by %d elapsed-time '
+            'observations (recession curve), and `simulate` prints %d and %d values; the instruction file reads %s'
+            % (n_rise, n_rec or 0, n_rise, n_rec or 0, ins_shape(ins)))
+    out.evaluations += 1
+    level = {'rise': ds.rise_levels, 'recession': ds.rec_levels}
+    quantity = {'rise': 'dynamic storage of the rise curve', 'recession': 'elapsed time of the recession curve'}
+
+    def first_misplaced(got):
+        for k, w in enumerate(want):
+            g = where.get(got[k][1]) if k < len(got) else None
+            if g != w:
+                return ('observation e%d is, in the control file, the measured %s at level %r, but the instruction '
+                        'file extracts it (as %s) from %s'
+                        % (k + 1, quantity[w[0]], level[w[0]][w[1]], got[k][0] if k < len(got) else '-',
+                           'nothing (it stops after %d values)' % len(got) if k >= len(got) else
+                           'a line that holds no simulated value (%r)' % got[k][1] if g is None else
+                           'value %d of the %s vector (level %r)' % (g[1] + 1, g[0], level[g[0]][g[1]])))
+        return None
+    try:
+        got = py_ins_read(ins, lines)
+    except (ValueError, IndexError) as e:
+        out.count('misaligned:%s:%s' % (which, type(e).__name__))
+        # where the reading first goes astray: the same run over the output followed by filler lines
+        try:
+            astray = first_misplaced(py_ins_read(ins, lines + ['(past the end of the output)'] * len(ins)))
+        except (ValueError, IndexError):
+            astray = None
+        out.violation('oracle', '%s: the instruction file cannot be run over the simulation output (%s)%s; %s'
+                      % (which, e, ': ' + astray if astray else '', told), case=case)
+        return
+    astray = first_misplaced(got)
+    if astray:
+        out.count('misaligned:%s:position' % which)
+        out.violation('oracle', '%s: %s; %s' % (which, astray, told), case=case)
+        return
+    if len(got) != len(want):
+        out.count('misaligned:%s:extra' % which)
+        out.violation('oracle', '%s: the instruction file extracts %d values, the control file has %d observations; %s'
+                      % (which, len(got), len(want), told), case=case)
+        return
+    out.count('aligned:%s' % which)
 
 
 def original_values(par):
@@ -588,7 +720,8 @@ def oracle_template_roundtrip(par, lines, out, case, consistent):
         out.violation('oracle', '%s template filled with the original values does not give back the original '
                       'parameter file: at %s the original is %r, the filled template gives %r%s'
                       % (which, path, a, b, ' (a fixed value printed by str() with an exponent and no dot: YAML '
-                         'reads a string)' if sig else ''), case=case, signature=sig)
+                         'reads a string)' if sig else ''), case=dict(case, known=sig) if sig else case,
+                      signature=sig)
 
 
 def oracle_end_to_end(ds, parfile, par, lines, out, coq, case):
@@ -643,7 +776,7 @@ def oracle_end_to_end(ds, parfile, par, lines, out, coq, case):
                 out.violation('oracle', '%s: observation %s is extracted from columns 3:24 as %r, the simulator '
                               'computed %r (printed with %d characters)' % (name, oname, txt, simulated,
                                                                            len(yaml_float(simulated))),
-                              case=case, signature=sig)
+                              case=dict(case, known=sig) if sig else case, signature=sig)
                 break
             if abs(level - levels[k]) > 1e-9 * max(1.0, abs(level)) or measured != meas[k]:
                 out.violation('oracle', '%s: the %d-th simulated value is for level %r (measured %r) but the '
@@ -693,10 +826,18 @@ def oracle_printed_values(ds, parfile, lines_ins, rng, out, coq, case, nrounds):
             want = vals['rise'] + list(reversed(vals['recession']))
             outl = (texts['rise'] + texts['recession']).split('\n')
             outl = [l for l in outl[:-1]] if outl[-1] == '' else outl
-            got = py_ins_read(lines_ins, outl)
             out.evaluations += 1
-            out.count('printed-values', len(want))
             c = dict(case, level='printed', values=[v.hex() for v in want])
+            try:
+                got = py_ins_read(lines_ins, outl)
+            except (ValueError, IndexError) as e:
+                out.count('printed-run-misaligned')
+                out.violation('oracle', 'printed-value run: the curves instruction file cannot be run over what the '
+                              'simulator printed (%d rise values, then %d recession values): %s; the instruction '
+                              'file reads %s' % (len(vals['rise']), len(vals['recession']), e, ins_shape(lines_ins)),
+                              case=c)
+                return
+            out.count('printed-values', len(want))
             if len(got) != len(want):
                 out.violation('oracle', 'printed-value run: %d extracted, %d printed' % (len(got), len(want)), case=c)
                 continue
@@ -710,7 +851,8 @@ def oracle_printed_values(ds, parfile, lines_ins, rng, out, coq, case, nrounds):
                     out.count('printed-lost' + (':known' if n > 22 else ''))
                     out.violation('oracle', 'the simulator prints %r as "- %s" (%d characters); columns 3:24 of the '
                                   'instruction file give %r = %r' % (v, yaml_float(v), n, txt, val),
-                                  case=c, signature=SIG_WIDTH if n > 22 else None)
+                                  case=dict(c, known=SIG_WIDTH) if n > 22 else c,
+                                  signature=SIG_WIDTH if n > 22 else None)
                 elif len(yaml_float(v)) <= 22:
                     out.nontriv(('printed', v.hex()))
             try:
@@ -777,10 +919,13 @@ KINDS = [('spline', 'spline'), ('peatclsm', 'peatclsm'), ('spline', 'spline'), (
          ('spline', 'spline'), ('peatclsm', 'spline'), ('spline', 'peatclsm')]
 
 
-def check_dataset(ds_seed, tag, npar, nsane, nprinted, out, coq):
+def check_dataset(ds_seed, tag, npar, nsane, nprinted, out, coq, only=None):
+    """only = None (everything), ('pair', j) or ('printed',): the part a replayed case belongs to
+    (the dataset and the parameter files are regenerated from ds_seed either way)."""
     rng = C.rng_for(ds_seed, PROP, 'dataset')
-    ds = gen_dataset(rng, tag, out)
+    ds = gen_dataset(rng, tag, out, want=TARGETS[ds_seed % len(TARGETS)])
     out.count('dataset')
+    out.count('levels:' + relation(ds))
     out.count('levels', len(ds.rise_rows) + len(ds.rec_rows))
     last = None
     for j in range(npar):
@@ -791,18 +936,22 @@ def check_dataset(ds_seed, tag, npar, nsane, nprinted, out, coq):
         prng = C.rng_for(ds_seed, PROP, 'par', j)
         text = gen_params(prng, sy_k, tr_k, sane=(ds.zmin, ds.zmax) if sane else None)
         case = dict(level='pair', ds_seed=ds_seed, j=j, npar=npar, nsane=nsane)
-        check_pair(ds, text, out, coq, case, sane)
+        if only is None or only == ('pair', j):
+            check_pair(ds, text, out, coq, case, sane)
         if sane and last is None:
             last = text
-    if last is not None and nprinted:
+    if last is not None and nprinted and (only is None or only == ('printed',)):
         parfile = os.path.join(ds.dir, 'par.yml')
         with open(parfile, 'w') as f:
             f.write(last)
         ins, exc = pestfile(ds, 'curves', parfile, 'ins')
         if exc is None:
-            oracle_printed_values(ds, parfile, ins.split(os.linesep), C.rng_for(ds_seed, PROP, 'printed'), out, coq,
-                                  dict(level='printed', ds_seed=ds_seed, npar=npar, nsane=nsane, nprinted=nprinted),
-                                  nprinted)
+            pcase = dict(level='printed', ds_seed=ds_seed, npar=npar, nsane=nsane, nprinted=nprinted)
+            guarded(out, pcase, 'printed values: simulate with chosen floats read through the curves instruction file',
+                    oracle_printed_values, ds, parfile, ins.split(os.linesep), C.rng_for(ds_seed, PROP, 'printed'),
+                    out, coq, pcase, nprinted)
+        else:
+            out.count('printed-skipped:no-instruction-file')
     return ds
 
 
@@ -837,6 +986,10 @@ def run(ctx, out):
 
 
 def replay(case, out):
+    """Re-run the part of the dataset's check the case belongs to (one (dataset, parameter file) pair,
+    or the printed-value rounds). The two listed findings (C19/ins-width, C19/tpl-exponent) occur on
+    the unchanged tree in most datasets: they are reported in a replay only when the replayed case is
+    itself a case of that finding (`known` in the case), so that a replay answers for its own violation."""
     C.import_spowtd()
     coq = dict(files=[], readers=[], ins=[])
     lvl = case.get('level')
@@ -846,6 +999,8 @@ def replay(case, out):
     if lvl == 'golden':
         check_golden(out, coq)
     else:
+        only = ('printed',) if lvl == 'printed' else ('pair', case['j']) if 'j' in case else None
         check_dataset(case['ds_seed'], 'replay', case.get('npar', 10), case.get('nsane', 2),
-                      case.get('nprinted', 3), out, coq)
+                      case.get('nprinted', 3), out, coq, only=only)
     run_coq(coq, out)
+    out.violations = [v for v in out.violations if v.get('signature') in (None, case.get('known'))]
